@@ -6,6 +6,7 @@ pub mod expr;
 pub mod fsx;
 pub mod gen;
 pub mod proc;
+pub mod xa;
 
 pub use gen::Gen;
 
@@ -57,6 +58,8 @@ pub struct Pass {
     pub discarded: Option<&'static str>,
     /// human-readable rendering for the evidence samples
     pub sample: Option<Value>,
+    /// number of oracle evaluations this case stands for (e.g. all cut sets of one string); 0 = 1
+    pub evals: u64,
 }
 
 impl Pass {
@@ -71,6 +74,10 @@ impl Pass {
         if cond {
             self.classes.push(c);
         }
+        self
+    }
+    pub fn evals(mut self, n: u64) -> Self {
+        self.evals = n;
         self
     }
     pub fn sample(mut self, v: Value) -> Self {
@@ -225,8 +232,8 @@ impl Worker {
             *self.sum.discarded.entry(why.to_string()).or_insert(0) += 1;
             return;
         }
-        self.sum.evaluations += 1;
-        sub.evaluations += 1;
+        self.sum.evaluations += p.evals.max(1);
+        sub.evaluations += p.evals.max(1);
         for c in &p.classes {
             *self.sum.classes.entry(c.to_string()).or_insert(0) += 1;
         }
